@@ -51,12 +51,57 @@ def regionOf (stop : SliceMode) (p : Rat) (e? : Option Rat) (sc : Rat) : Region 
 
 def InRegion (dim : DimDesc) (R : Region) (i : Nat) : Prop := InInterval R.mode R.s R.e (dimCoord dim i)
 
+/-! ## the generated decisions of `_calc_data_slices` (`Generated/TagShape.lean`) are the expected ones -/
+
+/-- the generated test on the extent entry is `e > 0`; failing it, and without an entry, the mode is `Inclusive` -/
+theorem gen_extent_mode (e : Rat) :
+    (Gen.extentKeepsStopRule e = true ↔ 0 < e) ∧ sliceModeNamed Gen.extentElseMode = .inclusive ∧
+    sliceModeNamed Gen.noExtentMode = .inclusive := by
+  refine ⟨?_, by decide, by decide⟩
+  simp [Gen.extentKeepsStopRule]
+
+/-- the generated stop position is `extent · scaling + start` -/
+theorem gen_stopPos (e sc start : Rat) : Gen.stopPos e sc start = e * sc + start := rfl
+
+/-- the generated slice is `slice(a, b + 1)`; a whole axis starts at 0 -/
+theorem gen_sliceOf (a b : Int) : Gen.sliceOf a b = (a, b + 1) := rfl
+theorem gen_wholeAxisStart : Gen.wholeAxisStart = 0 := rfl
+
+/-- the generated comparison of a slice stop with the data extent is `≤` -/
+theorem gen_stopInData (s n : Int) : Gen.stopInData s n = decide (s ≤ n) := rfl
+
+/-- the generated refusal test of an indexed feature is `posidx > rows` -/
+theorem gen_indexedRowBeyond (i rows : Nat) : Gen.indexedRowBeyond i rows = decide (i > rows) := rfl
+
+theorem noneStr_eq : noneStr = ['n', 'o', 'n', 'e'] := rfl
+
+/-- `stopOf` with the generated decisions spelled out -/
+theorem stopOf_some (stop : SliceMode) (start sc e : Rat) :
+    stopOf stop start sc (some e) = (e * sc + start, if 0 < e then stop else .inclusive) := by
+  have h := gen_extent_mode e
+  unfold stopOf
+  simp only [gen_stopPos, h.2.1]
+  by_cases he : 0 < e
+  · simp [he, h.1.mpr he]
+  · have : Gen.extentKeepsStopRule e = false := by
+      cases hk : Gen.extentKeepsStopRule e with
+      | false => rfl
+      | true => exact absurd (h.1.mp hk) he
+    simp [he, this]
+
+theorem stopOf_none (stop : SliceMode) (start sc : Rat) :
+    stopOf stop start sc none = (start, .inclusive) := by
+  unfold stopOf
+  simp only [(gen_extent_mode 0).2.2]
+
 /-- `regionOf` spelled out -/
 theorem regionOf_some (stop : SliceMode) (p e sc : Rat) :
-    regionOf stop p (some e) sc = ⟨if 0 < e then stop else .inclusive, p * sc, e * sc + p * sc⟩ := rfl
+    regionOf stop p (some e) sc = ⟨if 0 < e then stop else .inclusive, p * sc, e * sc + p * sc⟩ := by
+  simp only [regionOf, stopOf_some]
 
 theorem regionOf_none (stop : SliceMode) (p sc : Rat) :
-    regionOf stop p none sc = ⟨.inclusive, p * sc, p * sc⟩ := rfl
+    regionOf stop p none sc = ⟨.inclusive, p * sc, p * sc⟩ := by
+  simp only [regionOf, stopOf_none]
 
 /-- the descriptor's `range_indices` meets C07's specification -/
 theorem dimRangeIndices_meets (dim : DimDesc) (hd : DimOK dim) (s e : Rat) (m : SliceMode)
